@@ -72,19 +72,24 @@ Proof.
   rewrite E. reflexivity.
 Qed.
 
-(** the second write with a MESH file: both files are the first ones up to blanks before the newlines *)
-Theorem write_idem_meshfile d ks d' fs :
-  write_files (mk_wcfg 1 None None) d = Ok (d', fs) ->
-  update_sections d = sections d -> main_secs d = map s2l ks -> xprec d = [] ->
+Lemma render_prog_file X ks : render0 (prog_file X ks) =
+  (do all <- render0 (flat_map (prog_sec X) ks); Ok ((strip (title X) +++ [nl]) :: all ++ [end_keyword X +++ [nl]])%list).
+Proof.
+  unfold prog_file. rewrite render_cons. cbn [render1 bind]. rewrite render_app.
+  destruct (render0 (flat_map (prog_sec X) ks)) as [all|]; cbn [bind]; [|reflexivity]. unfold Prog.render. cbn [mapM render1 bind]. reflexivity.
+Qed.
+(** the second write with a MESH file as programs: the re-read object writes the read-back programs of the original
+    (no hypothesis on the stability of the values, none on the first write) *)
+Theorem mesh_second_write d ks :
   chain_ok d ks (start_state d) = true ->
   let d2 := reread d ks in let X := mesh_state d d2 in
   forallb (wf_block T0 (rocks d2)) (blocks d) = true -> forallb (wf_conn T0 (canon_blocks T0 (blocks d))) (conns d) = true ->
   idem_mesh_ok d ks = true -> update_sections X = sections X ->
-  Forall (istable T0) (prog_file d ks) -> Forall (istable T0) (mesh_prog d) ->
-  exists d'' fs' m m', write_files (mk_wcfg 1 None None) X = Ok (d'', fs') /\ Forall2 lpad (f_main fs) (f_main fs') /\
-    f_mesh fs = Some m /\ f_mesh fs' = Some m' /\ Forall2 lpad m m' /\ f_pdat fs' = None.
+  prog_file X ks = map citem0 (prog_file d ks) /\ mesh_prog X = map citem0 (mesh_prog d) /\
+  write_files (mk_wcfg 1 None None) X =
+    (do ml <- render0 (mesh_prog X); do ls <- render0 (prog_file X ks); Ok (set_sections X (sections X), mk_files ls (Some ml) None)).
 Proof.
-  intros W US SK XP CH d2 X WB WC ID USX ST1 ST2.
+  intros CH d2 X WB WC ID USX.
   pose proof tables_ok_true as TK. unfold tables_ok in TK. repeat (apply andb_prop in TK as [TK ?]).
   unfold idem_mesh_ok in ID. cbv zeta in ID. fold d2 in ID. fold X in ID.
   apply andb_prop in ID as [ID IC]. apply andb_prop in ID as [ID IE]. apply andb_prop in ID as [ID BN]. apply andb_prop in ID as [ID AX].
@@ -92,18 +97,6 @@ Proof.
   destruct (idem_chain_all d ks _ ICH) as [COV WFW].
   destruct (reread_facts d ks) as [XD [SD ED]]. fold d2 in XD, SD, ED.
   destruct (mesh_state_facts d d2) as [MX [MS [MT [ME [MA [MB MC]]]]]]. fold X in MX, MS, MT, ME, MA, MB, MC.
-  (* the first files as programs *)
-  destruct (write_files_mesh_shape d d' fs W US XP) as [all [ml [WS [WM EF]]]]. subst fs. cbn [f_main f_mesh f_pdat]. rewrite SK in WS.
-  rewrite (write_sections_prog d ks COV WFW) in WS.
-  assert (W1 : render0 (prog_file d ks) = Ok ((strip (title d) +++ [nl]) :: all ++ [end_keyword d +++ [nl]])%list).
-  { unfold prog_file. rewrite render_cons. cbn [render1 bind]. rewrite render_app, WS. reflexivity. }
-  assert (WMP : render0 (mesh_prog d) = Ok ml).
-  { assert (E1 : wsec d "ELEME" = render0 (prog_sec d "ELEME")) by (apply wsec_prog; [cbn; tauto|reflexivity]).
-    assert (E2 : wsec d "CONNE" = render0 (prog_sec d "CONNE")) by (apply wsec_prog; [cbn; tauto|reflexivity]).
-    unfold mesh_prog. rewrite render_app, <- E1, <- E2, wsec_ELEME, wsec_CONNE. destruct (write_blocks T0 d) as [a|]; cbn [bind] in *; [|discriminate].
-    destruct (write_conns T0 d) as [b|]; cbn [bind] in *; [|discriminate]. exact WM. }
-  destruct (render_rewrite T0 _ _ W1 ST1) as [ls' [R1 F1]]. destruct (render_rewrite T0 _ _ WMP ST2) as [ml' [R2 F2]].
-  (* the programs of X *)
   assert (SAME : forall k, In k ks -> exists pre post, ks = (pre ++ k :: post)%list /\ same_for k X (push k (supd k d (final d pre (start_state d))))).
   { intros k IK. destruct (in_split k ks IK) as [pre0 [post0 E0]].
     assert (IC0 := ICH). rewrite E0 in IC0. apply idem_chain_split in IC0 as [IX _].
@@ -128,19 +121,75 @@ Proof.
   { unfold same_for. cbn [String.eqb Ascii.eqb Bool.eqb]. rewrite MC. unfold push, supd. cbn [String.eqb Ascii.eqb Bool.eqb]. destruct a; reflexivity. }
   assert (PC : prog_sec X "CONNE" = map citem0 (prog_sec d "CONNE")).
   { refine (proj1 (prog_sec_canon d "CONNE" a X IN2 WC' IC eq_refl SF2 AX _)). intro; discriminate. }
-  (* the second write *)
+  split; [exact PF|]. split; [unfold mesh_prog; rewrite map_app, PE, PC; reflexivity|].
   assert (MSX : main_secs X = map s2l ks) by (apply main_secs_mesh_state; assumption).
-  rewrite (write_files_mesh_eq X USX) by (rewrite MX; exact XD). rewrite MSX.
-  rewrite (write_sections_prog X ks COV WX).
-  assert (WMX : (do a <- write_blocks T0 X; do b <- write_conns T0 X; Ok (Some (a +++ b))) = Ok (Some ml')).
-  { assert (E1 : wsec X "ELEME" = render0 (prog_sec X "ELEME")) by (apply wsec_prog; [cbn; tauto|reflexivity]).
-    assert (E2 : wsec X "CONNE" = render0 (prog_sec X "CONNE")) by (apply wsec_prog; [cbn; tauto|reflexivity]).
-    rewrite <- wsec_ELEME, <- wsec_CONNE, E1, E2.
-    unfold mesh_prog in R2. rewrite map_app, <- PE, <- PC, render_app in R2.
-    destruct (render0 (prog_sec X "ELEME")) as [ra|]; cbn [bind] in *; [|discriminate].
-    destruct (render0 (prog_sec X "CONNE")) as [rb|]; cbn [bind] in *; [|discriminate]. inv_ok R2. reflexivity. }
-  rewrite WMX. cbn [bind].
-  rewrite <- PF in R1. unfold prog_file in R1. rewrite render_cons in R1. cbn [render1 bind] in R1. rewrite render_app in R1.
-  destruct (render0 (flat_map (prog_sec X) ks)) as [allx|]; cbn [bind] in *; [|discriminate]. unfold Prog.render in R1. cbn [mapM render1 bind] in R1. inv_ok R1.
-  eexists _, _, ml, ml'. split; [reflexivity|]. cbn [f_main f_mesh f_pdat]. repeat split; assumption.
+  rewrite (write_files_mesh_eq X USX) by (rewrite MX; exact XD). rewrite MSX, (write_sections_prog X ks COV WX), render_prog_file.
+  assert (E1 : wsec X "ELEME" = render0 (prog_sec X "ELEME")) by (apply wsec_prog; [cbn; tauto|reflexivity]).
+  assert (E2 : wsec X "CONNE" = render0 (prog_sec X "CONNE")) by (apply wsec_prog; [cbn; tauto|reflexivity]).
+  rewrite <- wsec_ELEME, <- wsec_CONNE, E1, E2. unfold mesh_prog. rewrite render_app.
+  destruct (render0 (prog_sec X "ELEME")) as [ra|]; cbn [bind]; [|reflexivity].
+  destruct (render0 (prog_sec X "CONNE")) as [rb|]; cbn [bind]; [|reflexivity].
+  destruct (render0 (flat_map (prog_sec X) ks)) as [all|]; reflexivity.
+Qed.
+(** the first write as programs *)
+Lemma mesh_first_write d ks d' fs : write_files (mk_wcfg 1 None None) d = Ok (d', fs) ->
+  update_sections d = sections d -> main_secs d = map s2l ks -> xprec d = [] -> idem_chain d ks (start_state d) = true ->
+  exists ls ml, render0 (prog_file d ks) = Ok ls /\ render0 (mesh_prog d) = Ok ml /\ fs = mk_files ls (Some ml) None.
+Proof.
+  intros W US SK XP ICH. destruct (idem_chain_all d ks _ ICH) as [COV WFW].
+  destruct (write_files_mesh_shape d d' fs W US XP) as [all [ml [WS [WM EF]]]]. rewrite SK in WS.
+  rewrite (write_sections_prog d ks COV WFW) in WS.
+  exists ((strip (title d) +++ [nl]) :: all ++ [end_keyword d +++ [nl]])%list, ml. split; [rewrite render_prog_file, WS; reflexivity|]. split; [|exact EF].
+  assert (E1 : wsec d "ELEME" = render0 (prog_sec d "ELEME")) by (apply wsec_prog; [cbn; tauto|reflexivity]).
+  assert (E2 : wsec d "CONNE" = render0 (prog_sec d "CONNE")) by (apply wsec_prog; [cbn; tauto|reflexivity]).
+  unfold mesh_prog. rewrite render_app, <- E1, <- E2, wsec_ELEME, wsec_CONNE.
+  destruct (write_blocks T0 d) as [a|]; cbn [bind] in *; [|discriminate].
+  destruct (write_conns T0 d) as [b|]; cbn [bind] in *; [|discriminate]. exact WM.
+Qed.
+Lemma idem_mesh_chain d ks : idem_mesh_ok d ks = true -> idem_chain d ks (start_state d) = true.
+Proof. unfold idem_mesh_ok. cbv zeta. intro H. do 6 (apply andb_prop in H as [H _]). exact H. Qed.
+
+(** the second write with a MESH file: both files are the first ones up to blanks before the newlines *)
+Theorem write_idem_meshfile d ks d' fs :
+  write_files (mk_wcfg 1 None None) d = Ok (d', fs) ->
+  update_sections d = sections d -> main_secs d = map s2l ks -> xprec d = [] ->
+  chain_ok d ks (start_state d) = true ->
+  let d2 := reread d ks in let X := mesh_state d d2 in
+  forallb (wf_block T0 (rocks d2)) (blocks d) = true -> forallb (wf_conn T0 (canon_blocks T0 (blocks d))) (conns d) = true ->
+  idem_mesh_ok d ks = true -> update_sections X = sections X ->
+  Forall (istable T0) (prog_file d ks) -> Forall (istable T0) (mesh_prog d) ->
+  exists d'' fs' m m', write_files (mk_wcfg 1 None None) X = Ok (d'', fs') /\ Forall2 lpad (f_main fs) (f_main fs') /\
+    f_mesh fs = Some m /\ f_mesh fs' = Some m' /\ Forall2 lpad m m' /\ f_pdat fs' = None.
+Proof.
+  intros W US SK XP CH d2 X WB WC ID USX ST1 ST2.
+  destruct (mesh_first_write d ks d' fs W US SK XP (idem_mesh_chain d ks ID)) as [ls [ml [R1 [R2 EF]]]]. subst fs.
+  destruct (render_rewrite T0 _ _ R1 ST1) as [ls' [R1' F1]]. destruct (render_rewrite T0 _ _ R2 ST2) as [ml' [R2' F2]].
+  destruct (mesh_second_write d ks CH WB WC ID USX) as [PF [PM WX]]. fold d2 in PF, PM, WX. fold X in PF, PM, WX.
+  rewrite PF, PM, R1', R2' in WX. cbn [bind] in WX.
+  eexists _, _, ml, ml'. split; [exact WX|]. cbn [f_main f_mesh f_pdat]. repeat split; assumption.
+Qed.
+(** ... and from then on byte for byte: the object read from the second pair of files writes the second pair again *)
+Theorem write_fixpoint_meshfile d ks d' fs :
+  write_files (mk_wcfg 1 None None) d = Ok (d', fs) ->
+  update_sections d = sections d -> main_secs d = map s2l ks -> xprec d = [] ->
+  chain_ok d ks (start_state d) = true ->
+  let d2 := reread d ks in let X := mesh_state d d2 in
+  forallb (wf_block T0 (rocks d2)) (blocks d) = true -> forallb (wf_conn T0 (canon_blocks T0 (blocks d))) (conns d) = true ->
+  idem_mesh_ok d ks = true -> update_sections X = sections X ->
+  Forall (istable T0) (prog_file d ks) -> Forall (istable T0) (mesh_prog d) ->
+  let X2 := reread X ks in let Y := mesh_state X X2 in
+  chain_ok X ks (start_state X) = true ->
+  forallb (wf_block T0 (rocks X2)) (blocks X) = true -> forallb (wf_conn T0 (canon_blocks T0 (blocks X))) (conns X) = true ->
+  idem_mesh_ok X ks = true -> update_sections Y = sections Y ->
+  exists d'' fs' d3 fs'', write_files (mk_wcfg 1 None None) X = Ok (d'', fs') /\ write_files (mk_wcfg 1 None None) Y = Ok (d3, fs'') /\
+    f_main fs'' = f_main fs' /\ f_mesh fs'' = f_mesh fs' /\ f_pdat fs'' = f_pdat fs'.
+Proof.
+  intros W US SK XP CH d2 X WB WC ID USX ST1 ST2 X2 Y CHX WBX WCX IDX USY.
+  destruct (mesh_first_write d ks d' fs W US SK XP (idem_mesh_chain d ks ID)) as [ls [ml [R1 [R2 EF]]]].
+  destruct (render_rewrite T0 _ _ R1 ST1) as [ls' [R1' F1]]. destruct (render_rewrite T0 _ _ R2 ST2) as [ml' [R2' F2]].
+  destruct (mesh_second_write d ks CH WB WC ID USX) as [PF [PM WX]]. fold d2 in PF, PM, WX. fold X in PF, PM, WX.
+  destruct (mesh_second_write X ks CHX WBX WCX IDX USY) as [PF2 [PM2 WY]]. fold X2 in PF2, PM2, WY. fold Y in PF2, PM2, WY.
+  rewrite PF, PM, R1', R2' in WX. cbn [bind] in WX.
+  rewrite PF2, PM2, PF, PM, (render_fixpoint T0 _ _ R1 ST1), (render_fixpoint T0 _ _ R2 ST2), R1', R2' in WY. cbn [bind] in WY.
+  eexists _, _, _, _. split; [exact WX|]. split; [exact WY|]. cbn [f_main f_mesh f_pdat]. repeat split; reflexivity.
 Qed.
